@@ -133,6 +133,125 @@ type bufHooks struct {
 	start, end string
 	pure       map[string]bool
 	finalizeFn *ssa.Function // the function every accessor runs on its copy before handing bytes out
+	neutral    map[string]bool
+}
+
+// finalizeNeutral decides, from the finalizing function's own code, whether
+// running it in configuration (mode, markerOpen) can change the content: its
+// control flow is followed with the two fields held at the given values
+// (branches on anything else are followed both ways); a call other than a
+// pure test, or a store to anything but the validation index, on a reachable
+// block means "may change". An accessor that skips finalize in a
+// configuration where finalize is the identity on the content hands out the
+// same bytes.
+func (h *bufHooks) finalizeNeutral(mode int64, open bool) bool {
+	fn := h.finalizeFn
+	if fn == nil || len(fn.Blocks) == 0 || len(fn.Params) == 0 {
+		return false
+	}
+	key := fmt.Sprintf("%d/%v", mode, open)
+	if v, ok := h.neutral[key]; ok {
+		return v
+	}
+	if h.neutral == nil {
+		h.neutral = map[string]bool{}
+	}
+	recv := fn.Params[0]
+	fieldOf := func(v ssa.Value) string {
+		u, ok := v.(*ssa.UnOp)
+		if !ok || u.Op != token.MUL {
+			return ""
+		}
+		fa, ok := u.X.(*ssa.FieldAddr)
+		if !ok || fa.X != ssa.Value(recv) {
+			return ""
+		}
+		return fieldName(fa)
+	}
+	// eval returns 1 true, 0 false, -1 unknown
+	var eval func(v ssa.Value) int
+	eval = func(v ssa.Value) int {
+		switch x := v.(type) {
+		case *ssa.UnOp:
+			if x.Op == token.NOT {
+				if r := eval(x.X); r >= 0 {
+					return 1 - r
+				}
+				return -1
+			}
+			if fieldOf(x) == "markerOpen" {
+				if open {
+					return 1
+				}
+				return 0
+			}
+		case *ssa.BinOp:
+			if x.Op != token.EQL && x.Op != token.NEQ {
+				return -1
+			}
+			var k int64
+			var okk bool
+			if fieldOf(x.X) == "mode" {
+				k, okk = intConst(x.Y)
+			} else if fieldOf(x.Y) == "mode" {
+				k, okk = intConst(x.X)
+			}
+			if !okk {
+				return -1
+			}
+			eq := k == mode
+			if (x.Op == token.EQL) == eq {
+				return 1
+			}
+			return 0
+		}
+		return -1
+	}
+	seen := map[*ssa.BasicBlock]bool{}
+	okAll := true
+	var walk func(b *ssa.BasicBlock)
+	walk = func(b *ssa.BasicBlock) {
+		if seen[b] || !okAll {
+			return
+		}
+		seen[b] = true
+		for _, ins := range b.Instrs {
+			switch x := ins.(type) {
+			case *ssa.Store:
+				fa, ok := x.Addr.(*ssa.FieldAddr)
+				if !ok || fa.X != ssa.Value(recv) || fieldName(fa) != "validUntil" {
+					okAll = false
+				}
+			case ssa.CallInstruction:
+				if bi, isB := x.Common().Value.(*ssa.Builtin); isB && (bi.Name() == "len" || bi.Name() == "cap") {
+					continue
+				}
+				if f := x.Common().StaticCallee(); f != nil && h.pure[f.String()] {
+					continue
+				}
+				okAll = false
+			case *ssa.MapUpdate, *ssa.Send, *ssa.Panic:
+				okAll = false
+			case *ssa.If:
+				switch eval(x.Cond) {
+				case 1:
+					walk(b.Succs[0])
+				case 0:
+					walk(b.Succs[1])
+				default:
+					walk(b.Succs[0])
+					walk(b.Succs[1])
+				}
+				return
+			}
+		}
+		for _, sb := range b.Succs {
+			walk(sb)
+		}
+	}
+	walk(fn.Blocks[0])
+	h.neutral[key] = okAll
+	return okAll
 }
 
 func (h *bufHooks) set(c *engine.Ctx, obj, prefix, ghost, val string) {
@@ -444,7 +563,10 @@ func (h *bufHooks) OnEscape(c *engine.Ctx, instr ssa.Instruction, v engine.AbsVa
 		fin, _ = constStr(o.Fields[fp])
 	}
 	okFin := h.finalizeFn == nil || fin == "T"
-	h.verdict(c, instr, "I7", s.Pending == "none" && !s.Open && mk == "" && vu == "ok" && okFin,
+	finished := s.Pending == "none" && !s.Open && mk == "" && vu == "ok" && okFin
+	// or finalize would not touch the content in this configuration
+	asGood := !s.Open && mk == "" && s.Pending != "esc" && h.finalizeFn != nil && h.finalizeNeutral(s.Mode, s.Open)
+	h.verdict(c, instr, "I7", finished || asGood,
 		"buffer content handed out ("+how+"); requires finalize to have run on this object (a buffer with nothing pending may still end in a lone invalid byte that finalizing completes)", s.String()+" mk="+mk+" vu="+vu+" fin="+fin)
 }
 
